@@ -395,3 +395,260 @@ Lemma pkcs1_der_examples :
   /\ is_ok (parse_pkcs1_public_der (enc_seq (enc_int f26_n ++ enc_int (2 ^ 63 - 1)))) = true
   /\ is_ok (parse_pkcs1_public_der (enc_seq (enc_int f26_n ++ enc_int 65537 ++ enc_int 1) ++ [0; 0])) = true.
 Proof. vm_compute. repeat (match goal with |- _ /\ _ => split end); reflexivity. Qed.
+
+(* ------------------------------------------------------------------ *)
+(* SubjectPublicKeyInfo, PrivateKeyInfo                                *)
+(* ------------------------------------------------------------------ *)
+Lemma enc_seq_length : forall b, N.of_nat (length (enc_seq b)) <= N.of_nat (length b) + 6.
+Proof. intros. unfold enc_seq. pose proof (tlv_enc_length 16 true b ltac:(lia)). lia. Qed.
+Lemma tlv_length_N : forall t comp b, t < 31 -> N.of_nat (length (tlv_enc t comp b)) <= N.of_nat (length b) + 6.
+Proof. intros. pose proof (tlv_enc_length t comp b H). lia. Qed.
+
+Lemma oid_field_enc : forall arcs rest, In arcs [oid_rsa_arcs; oid_dsa_arcs; oid_ed25519_arcs] ->
+  oid_field (enc_oid arcs ++ rest) = Ok (arcs, rest).
+Proof.
+  intros arcs rest H. cbn [In] in H.
+  destruct H as [<-|[<-|[<-|[]]]]; unfold oid_field, enc_oid, oid_rsa_arcs, oid_dsa_arcs, oid_ed25519_arcs;
+    (rewrite field_enc by (try lia; vm_compute; reflexivity)); cbn [req bind fst snd];
+    match goal with |- context [dec_oid_legacy ?c] =>
+      let v := eval vm_compute in (dec_oid_legacy c) in change (dec_oid_legacy c) with v end;
+    reflexivity.
+Qed.
+
+Lemma enc_oid_length : forall arcs, In arcs [oid_rsa_arcs; oid_dsa_arcs; oid_ed25519_arcs] ->
+  N.of_nat (length (enc_oid arcs)) <= 20.
+Proof.
+  intros arcs H. cbn [In] in H. destruct H as [<-|[<-|[<-|[]]]]; vm_compute; discriminate.
+Qed.
+
+Lemma raw_optional_enc : forall t comp c rest, t < 2147483648 -> len_ok (length c) = true ->
+  raw_optional (tlv_enc t comp c ++ rest) = Ok (tlv_enc t comp c, rest).
+Proof.
+  intros t comp c rest Ht Hl. unfold raw_optional.
+  destruct (tlv_enc t comp c ++ rest) eqn:E.
+  { exfalso. unfold tlv_enc in E. pose proof (enc_hdr_length 0 comp t (N.of_nat (length c))) as L.
+    apply (f_equal (@length N)) in E. rewrite !app_length in E. cbn [length] in E. lia. }
+  rewrite <- E. unfold tlv_enc at 1. rewrite <- app_assoc.
+  unfold len_ok in Hl. apply N.ltb_lt in Hl.
+  rewrite parse_tl_enc by (try assumption; lia). cbn [h_len]. rewrite split_at_N_app.
+  rewrite app_length. replace (length (tlv_enc t comp c) + length rest - length rest)%nat with (length (tlv_enc t comp c)) by lia.
+  rewrite firstn_app, firstn_all, Nat.sub_diag. cbn [firstn]. rewrite app_nil_r. reflexivity.
+Qed.
+
+Lemma enc_null_tlv : enc_null = tlv_enc 5 false [].
+Proof. reflexivity. Qed.
+
+Lemma algorithm_identifier_enc : forall arcs t comp c rest,
+  In arcs [oid_rsa_arcs; oid_dsa_arcs; oid_ed25519_arcs] -> t < 31 -> N.of_nat (length c) <= 1000000000 ->
+  algorithm_identifier (enc_seq (enc_oid arcs ++ tlv_enc t comp c) ++ rest) = Ok (arcs, tlv_enc t comp c, rest).
+Proof.
+  intros arcs t comp c rest Ha Ht Hc. unfold algorithm_identifier.
+  pose proof (enc_oid_length arcs Ha). pose proof (tlv_length_N t comp c Ht).
+  rewrite seq_enc by (apply len_ok_le; rewrite app_length; lia). cbn [bind fst snd].
+  rewrite oid_field_enc by assumption. cbn [bind fst snd].
+  rewrite <- (app_nil_r (tlv_enc t comp c)) at 1.
+  rewrite raw_optional_enc by (try lia; apply len_ok_le; lia). reflexivity.
+Qed.
+
+Lemma algorithm_identifier_enc_noparams : forall arcs rest,
+  In arcs [oid_rsa_arcs; oid_dsa_arcs; oid_ed25519_arcs] ->
+  algorithm_identifier (enc_seq (enc_oid arcs) ++ rest) = Ok (arcs, [], rest).
+Proof.
+  intros arcs rest Ha. unfold algorithm_identifier.
+  pose proof (enc_oid_length arcs Ha).
+  rewrite seq_enc by (apply len_ok_le; lia). cbn [bind fst snd].
+  rewrite <- (app_nil_r (enc_oid arcs)). rewrite oid_field_enc by assumption. reflexivity.
+Qed.
+
+Lemma bitstring_field_enc : forall c rest, N.of_nat (length c) <= 1000000000 ->
+  bitstring_field (enc_bits c ++ rest) = Ok (c, rest).
+Proof.
+  intros c rest Hc. unfold bitstring_field, enc_bits.
+  rewrite field_enc by (try lia; apply len_ok_le; cbn [length]; lia). cbn [req bind fst snd].
+  change (7 <? 0) with false. change (0 <? 0) with false. rewrite Bool.andb_false_r. cbn [orb].
+  change (2 ^ 0) with 1. rewrite N.mod_1_r. reflexivity.
+Qed.
+
+Lemma octets_field_enc : forall c rest, N.of_nat (length c) <= 1000000000 ->
+  req (field false 4 false (enc_octets c ++ rest)) = Ok (c, rest).
+Proof.
+  intros. unfold enc_octets. rewrite field_enc by (try lia; apply len_ok_le; lia). reflexivity.
+Qed.
+
+Lemma enc_pkcs1_public_length : forall n e, int_wf n = true -> exp_wf e = true ->
+  N.of_nat (length (enc_pkcs1_public n e)) <= 3000000.
+Proof.
+  intros. unfold enc_pkcs1_public. pose proof (enc_seq_length (enc_int n ++ enc_int e)).
+  pose_lengths. rewrite app_length in *. lia.
+Qed.
+Lemma enc_dsa_parameters_length : forall p q g, int_wf p = true -> int_wf q = true -> int_wf g = true ->
+  N.of_nat (length (enc_dsa_parameters p q g)) <= 4000000.
+Proof.
+  intros. unfold enc_dsa_parameters. pose proof (enc_seq_length (enc_int p ++ enc_int q ++ enc_int g)).
+  pose_lengths. rewrite !app_length in *. lia.
+Qed.
+Lemma enc_pkcs1_private_length : forall n e d p q dp dq qinv,
+  int_wf n = true -> exp_wf e = true -> int_wf d = true -> int_wf p = true -> int_wf q = true ->
+  int_wf dp = true -> int_wf dq = true -> int_wf qinv = true ->
+  N.of_nat (length (enc_pkcs1_private n e d p q dp dq qinv)) <= 10000000.
+Proof.
+  intros. unfold enc_pkcs1_private. pose proof exp_wf_0.
+  match goal with |- context [enc_seq ?b] => pose proof (enc_seq_length b) end.
+  pose_lengths. rewrite !app_length in *. lia.
+Qed.
+
+Lemma in1 : forall a b c : list N, In a [a; b; c]. Proof. intros; cbn; auto. Qed.
+Lemma in2 : forall a b c : list N, In b [a; b; c]. Proof. intros; cbn; auto. Qed.
+Lemma in3 : forall a b c : list N, In c [a; b; c]. Proof. intros; cbn; auto. Qed.
+
+Lemma pkix_rsa_der_enc : forall ec n e rest, int_wf n = true -> exp_wf e = true ->
+  parse_pkix_der ec (enc_spki_rsa n e ++ rest) = Ok (key_description "PKIX public key" name_rsa n).
+Proof.
+  intros ec n e rest Hn He. pose proof (enc_pkcs1_public_length n e Hn He) as L.
+  unfold parse_pkix_der, pkix_fields, enc_spki_rsa. rewrite enc_null_tlv.
+  pose proof (enc_seq_length (enc_oid oid_rsa_arcs ++ tlv_enc 5 false [])) as L1.
+  pose proof (enc_oid_length oid_rsa_arcs (in1 _ _ _)) as L2.
+  pose proof (tlv_length_N 3 false (0 :: enc_pkcs1_public n e) ltac:(lia)) as L3.
+  pose proof (tlv_length_N 5 false [] ltac:(lia)) as L4.
+  rewrite seq_enc by (apply len_ok_le; unfold enc_bits; rewrite !app_length in *; cbn [length] in *; lia).
+  cbn [bind fst snd].
+  rewrite algorithm_identifier_enc by (try apply in1; cbn [length]; lia). cbn [bind fst snd].
+  rewrite (app_nil_r (enc_bits _)) || rewrite <- (app_nil_r (enc_bits (enc_pkcs1_public n e))).
+  rewrite bitstring_field_enc by lia. cbn [bind fst snd].
+  unfold with_desc, pkix_attrs, oid_rsa_arcs. eval_oid. cbn [bind].
+  rewrite <- (app_nil_r (enc_pkcs1_public n e)). unfold pkcs1_public_of_der.
+  rewrite pkcs1_public_fields_enc by assumption. cbn [opt_of].
+  unfold pkcs1_attrs, key_description. rewrite twos_der_int_enc, zbitlen_of_N. reflexivity.
+Qed.
+
+Lemma pkix_dsa_der_enc : forall ec p q g y rest,
+  int_wf p = true -> int_wf q = true -> int_wf g = true -> int_wf y = true ->
+  parse_pkix_der ec (enc_spki_dsa p q g y ++ rest) = Ok (key_description "PKIX public key" name_dsa p).
+Proof.
+  intros ec p q g y rest Hp Hq Hg Hy. pose proof (enc_dsa_parameters_length p q g Hp Hq Hg) as L.
+  pose proof (enc_int_length y Hy) as Ly.
+  unfold parse_pkix_der, pkix_fields, enc_spki_dsa.
+  unfold enc_dsa_parameters at 1. unfold enc_seq at 3.
+  match goal with |- context [tlv_enc 16 true ?b] =>
+    assert (Lb : N.of_nat (length b) <= 4000000) by (pose_lengths; rewrite !app_length; lia);
+    pose proof (tlv_length_N 16 true b ltac:(lia)) as L0;
+    pose proof (enc_seq_length (enc_oid oid_dsa_arcs ++ tlv_enc 16 true b)) as L1
+  end.
+  pose proof (enc_oid_length oid_dsa_arcs (in2 _ _ _)) as L2.
+  pose proof (tlv_length_N 3 false (0 :: enc_int y) ltac:(lia)) as L3.
+  rewrite seq_enc by (apply len_ok_le; unfold enc_bits; rewrite !app_length in *; cbn [length] in *; lia).
+  cbn [bind fst snd].
+  rewrite algorithm_identifier_enc by (try apply in2; lia). cbn [bind fst snd].
+  rewrite <- (app_nil_r (enc_bits (enc_int y))).
+  rewrite bitstring_field_enc by lia. cbn [bind fst snd].
+  unfold with_desc, pkix_attrs, oid_dsa_arcs. eval_oid. cbn [bind].
+  change (tlv_enc 16 true (enc_int p ++ enc_int q ++ enc_int g)) with (enc_dsa_parameters p q g).
+  rewrite <- (app_nil_r (enc_dsa_parameters p q g)). unfold dsa_parameters_of_der.
+  rewrite dsa_parameters_fields_enc by assumption. cbn [opt_of].
+  unfold dsa_parameter_attrs, key_description. rewrite twos_der_int_enc, zbitlen_of_N. reflexivity.
+Qed.
+
+Lemma pkix_ed25519_der_enc : forall ec pk rest, N.of_nat (length pk) <= 1000000 ->
+  parse_pkix_der ec (enc_spki_ed25519 pk ++ rest) = Ok (Info (bs "PKIX public key") ed25519_attrs []).
+Proof.
+  intros ec pk rest Hk. unfold parse_pkix_der, pkix_fields, enc_spki_ed25519.
+  pose proof (enc_seq_length (enc_oid oid_ed25519_arcs)) as L1.
+  pose proof (enc_oid_length oid_ed25519_arcs (in3 _ _ _)) as L2.
+  pose proof (tlv_length_N 3 false (0 :: pk) ltac:(lia)) as L3.
+  rewrite seq_enc by (apply len_ok_le; unfold enc_bits; rewrite !app_length in *; cbn [length] in *; lia).
+  cbn [bind fst snd].
+  rewrite algorithm_identifier_enc_noparams by apply in3. cbn [bind fst snd].
+  rewrite <- (app_nil_r (enc_bits pk)).
+  rewrite bitstring_field_enc by lia. cbn [bind fst snd].
+  unfold with_desc, pkix_attrs, oid_ed25519_arcs. eval_oid. reflexivity.
+Qed.
+
+Lemma pkcs8_rsa_der_enc : forall ec n e d p q dp dq qinv rest,
+  int_wf n = true -> exp_wf e = true -> int_wf d = true -> int_wf p = true -> int_wf q = true ->
+  int_wf dp = true -> int_wf dq = true -> int_wf qinv = true ->
+  parse_pkcs8_der ec (enc_pkcs8_rsa n e d p q dp dq qinv ++ rest)
+  = Ok (key_description "PKCS#8 private key" name_rsa n).
+Proof.
+  intros ec n e d p q dp dq qinv rest Hn He Hd Hp Hq Hdp Hdq Hqi.
+  pose proof (enc_pkcs1_private_length n e d p q dp dq qinv Hn He Hd Hp Hq Hdp Hdq Hqi) as L.
+  pose proof exp_wf_0 as H0.
+  unfold parse_pkcs8_der, pkcs8_fields, enc_pkcs8_rsa. rewrite enc_null_tlv.
+  pose proof (enc_seq_length (enc_oid oid_rsa_arcs ++ tlv_enc 5 false [])) as L1.
+  pose proof (enc_oid_length oid_rsa_arcs (in1 _ _ _)) as L2.
+  pose proof (tlv_length_N 4 false (enc_pkcs1_private n e d p q dp dq qinv) ltac:(lia)) as L3.
+  pose proof (tlv_length_N 5 false [] ltac:(lia)) as L4.
+  pose proof (enc_int_length 0 (exp_wf_int_wf 0 H0)) as L5.
+  rewrite seq_enc by (apply len_ok_le; unfold enc_octets; rewrite !app_length in *; cbn [length] in *; lia).
+  cbn [bind fst snd].
+  rewrite int_field_enc by assumption. cbn [bind fst snd].
+  rewrite algorithm_identifier_enc by (try apply in1; cbn [length]; lia). cbn [bind fst snd].
+  rewrite <- (app_nil_r (enc_octets _)).
+  rewrite octets_field_enc by lia. cbn [bind fst snd].
+  unfold with_desc, pkcs8_attrs, oid_rsa_arcs. eval_oid. cbn [bind].
+  rewrite <- (app_nil_r (enc_pkcs1_private n e d p q dp dq qinv)). unfold pkcs1_private_of_der.
+  rewrite pkcs1_private_fields_enc by assumption.
+  unfold pkcs1_attrs, key_description. rewrite twos_der_int_enc, zbitlen_of_N. reflexivity.
+Qed.
+
+Lemma pkcs8_dsa_der_enc : forall ec p q g x rest,
+  int_wf p = true -> int_wf q = true -> int_wf g = true -> int_wf x = true ->
+  parse_pkcs8_der ec (enc_pkcs8_dsa p q g x ++ rest) = Ok (key_description "PKCS#8 private key" name_dsa p).
+Proof.
+  intros ec p q g x rest Hp Hq Hg Hx. pose proof (enc_dsa_parameters_length p q g Hp Hq Hg) as L.
+  pose proof (enc_int_length x Hx) as Lx. pose proof exp_wf_0 as H0.
+  pose proof (enc_int_length 0 (exp_wf_int_wf 0 H0)) as L5.
+  unfold parse_pkcs8_der, pkcs8_fields, enc_pkcs8_dsa.
+  unfold enc_dsa_parameters at 1. unfold enc_seq at 3.
+  match goal with |- context [tlv_enc 16 true ?b] =>
+    assert (Lb : N.of_nat (length b) <= 4000000) by (pose_lengths; rewrite !app_length; lia);
+    pose proof (tlv_length_N 16 true b ltac:(lia)) as L0;
+    pose proof (enc_seq_length (enc_oid oid_dsa_arcs ++ tlv_enc 16 true b)) as L1
+  end.
+  pose proof (enc_oid_length oid_dsa_arcs (in2 _ _ _)) as L2.
+  pose proof (tlv_length_N 4 false (enc_int x) ltac:(lia)) as L3.
+  rewrite seq_enc by (apply len_ok_le; unfold enc_octets; rewrite !app_length in *; cbn [length] in *; lia).
+  cbn [bind fst snd].
+  rewrite int_field_enc by assumption. cbn [bind fst snd].
+  rewrite algorithm_identifier_enc by (try apply in2; lia). cbn [bind fst snd].
+  rewrite <- (app_nil_r (enc_octets (enc_int x))).
+  rewrite octets_field_enc by lia. cbn [bind fst snd].
+  unfold with_desc, pkcs8_attrs, oid_dsa_arcs. eval_oid. cbn [bind].
+  change (tlv_enc 16 true (enc_int p ++ enc_int q ++ enc_int g)) with (enc_dsa_parameters p q g).
+  rewrite <- (app_nil_r (enc_dsa_parameters p q g)). unfold dsa_parameters_of_der.
+  rewrite dsa_parameters_fields_enc by assumption. cbn [opt_of].
+  unfold dsa_parameter_attrs, key_description. rewrite twos_der_int_enc, zbitlen_of_N. reflexivity.
+Qed.
+
+Lemma pkcs8_ed25519_der_enc : forall ec seed rest, N.of_nat (length seed) <= 1000000 ->
+  parse_pkcs8_der ec (enc_pkcs8_ed25519 seed ++ rest) = Ok (Info (bs "PKCS#8 private key") ed25519_attrs []).
+Proof.
+  intros ec seed rest Hk. pose proof exp_wf_0 as H0.
+  pose proof (enc_int_length 0 (exp_wf_int_wf 0 H0)) as L5.
+  unfold parse_pkcs8_der, pkcs8_fields, enc_pkcs8_ed25519.
+  pose proof (enc_seq_length (enc_oid oid_ed25519_arcs)) as L1.
+  pose proof (enc_oid_length oid_ed25519_arcs (in3 _ _ _)) as L2.
+  pose proof (tlv_length_N 4 false seed ltac:(lia)) as L3.
+  pose proof (tlv_length_N 4 false (tlv_enc 4 false seed) ltac:(lia)) as L4.
+  rewrite seq_enc by (apply len_ok_le; unfold enc_octets; rewrite !app_length in *; cbn [length] in *; lia).
+  cbn [bind fst snd].
+  rewrite int_field_enc by assumption. cbn [bind fst snd].
+  rewrite algorithm_identifier_enc_noparams by apply in3. cbn [bind fst snd].
+  rewrite <- (app_nil_r (enc_octets (enc_octets seed))).
+  rewrite octets_field_enc by (unfold enc_octets; lia). cbn [bind fst snd].
+  unfold with_desc, pkcs8_attrs, oid_ed25519_arcs. eval_oid. reflexivity.
+Qed.
+
+Lemma spki_pkcs8_der_examples :
+  parse_pkix_der (Err "oracle") (enc_spki_rsa f26_n 65537)
+     = Ok (Info (bs "PKIX public key") [(bs "Algorithm", bs "RSA"); (bs "Size", bs "2047 bits")] [])
+  /\ parse_pkix_der (Err "oracle") (enc_spki_dsa (2 ^ 1022 + 7) (2 ^ 159 + 1) 5 6)
+     = Ok (Info (bs "PKIX public key") [(bs "Algorithm", bs "DSA"); (bs "Size", bs "1023 bits")] [])
+  /\ parse_pkix_der (Err "oracle") (enc_spki_ed25519 (repeat 7 32))
+     = Ok (Info (bs "PKIX public key") [(bs "Algorithm", bs "EdDSA"); (bs "Curve", bs "Ed25519")] [])
+  /\ parse_pkcs8_der (Err "oracle") (enc_pkcs8_rsa f26_n 65537 (f26_n - 2) (2 ^ 1023 + 1) (2 ^ 1023 - 1) 11 13 17)
+     = Ok (Info (bs "PKCS#8 private key") [(bs "Algorithm", bs "RSA"); (bs "Size", bs "2047 bits")] [])
+  /\ parse_pkcs8_der (Err "oracle") (enc_pkcs8_dsa (2 ^ 1022 + 7) (2 ^ 159 + 1) 5 6)
+     = Ok (Info (bs "PKCS#8 private key") [(bs "Algorithm", bs "DSA"); (bs "Size", bs "1023 bits")] [])
+  /\ parse_pkcs8_der (Err "oracle") (enc_pkcs8_ed25519 (repeat 9 32))
+     = Ok (Info (bs "PKCS#8 private key") [(bs "Algorithm", bs "EdDSA"); (bs "Curve", bs "Ed25519")] []).
+Proof. vm_compute. repeat (match goal with |- _ /\ _ => split end); reflexivity. Qed.
